@@ -64,6 +64,7 @@ Lemma chain_single c :
   | None => Err E_NO_EXT
   | Some e =>
       if negb (c_verify_ok c) then Err E_VERIFY else
+      if checks_self_sig && negb (c_self_signed c) then Err E_VERIFY else
       match e_value e with
       | ExtGarbage => Err E_ASN1
       | SignedKey PkGarbage _ => Err E_PUBKEY
@@ -81,20 +82,25 @@ Theorem chain_accept_iff chain k :
   pubkey_from_chain chain = Ok k <->
   exists c e, chain = [c] /\ c_verify_ok c = true /\ c_pkix_ok c = true /\
     find_key_ext (c_exts c) = Some e /\
-    e_value e = SignedKey (PkOf k) (SigBy k (binding_msg (c_key c))).
+    e_value e = SignedKey (PkOf k) (SigBy k (binding_msg (c_key c))) /\
+    (checks_self_sig = true -> c_self_signed c = true).
 Proof.
   split.
   - destruct (chain_len_cases chain) as [[c ->]|E]; [|rewrite E; discriminate].
     rewrite chain_single.
     destruct (find_key_ext (c_exts c)) as [e|] eqn:Ef; [|discriminate].
     destruct (c_verify_ok c) eqn:Ev; cbn [negb]; [|discriminate].
+    destruct (checks_self_sig && negb (c_self_signed c)) eqn:Ess; [discriminate|].
     destruct (e_value e) as [[k'|] s|] eqn:Ee; try discriminate.
     destruct (c_pkix_ok c) eqn:Ep; cbn [negb]; [|discriminate].
     destruct (sig_verify k' (binding_msg (c_key c)) s) eqn:Es; [|discriminate].
     intros H; inversion H; subst. apply sig_verify_true in Es. subst s.
-    exists c, e. auto.
-  - intros (c & e & -> & Hv & Hp & Hf & He). rewrite chain_single.
-    rewrite Hf, Hv, He, Hp. cbn [negb].
+    exists c, e. repeat split; auto.
+    intros Hc. rewrite Hc in Ess. cbn [andb] in Ess. destruct (c_self_signed c); [reflexivity|discriminate].
+  - intros (c & e & -> & Hv & Hp & Hf & He & Hss). rewrite chain_single.
+    assert (Ess : checks_self_sig && negb (c_self_signed c) = false).
+    { destruct checks_self_sig; [rewrite Hss; reflexivity|reflexivity]. }
+    rewrite Hf, Hv, Ess, He, Hp. cbn [negb].
     assert (sig_verify k (binding_msg (c_key c)) (SigBy k (binding_msg (c_key c))) = true)
       by (apply sig_verify_true; reflexivity).
     rewrite H. reflexivity.
@@ -105,6 +111,7 @@ Proof.
   destruct (chain_len_cases chain) as [[c ->]|E]; [|rewrite E; discriminate].
   rewrite chain_single.
   destruct (find_key_ext _); [|discriminate]. destruct (c_verify_ok c); cbn [negb]; [|discriminate].
+  destruct (checks_self_sig && negb (c_self_signed c)); [discriminate|].
   destruct (e_value e) as [[?|] ?|]; try discriminate.
   destruct (c_pkix_ok c); cbn [negb]; [|discriminate]. destruct (sig_verify _ _ _); discriminate.
 Qed.
@@ -196,7 +203,7 @@ Theorem handshake_ok expected a id :
   exists c e k, a_raw a = [RawCert c] /\ id = id_of k /\
     c_verify_ok c = true /\ find_key_ext (c_exts c) = Some e /\
     e_value e = SignedKey (PkOf k) (SigBy k (binding_msg (c_key c))) /\
-    (expected = 0 \/ id = expected).
+    (expected = 0 \/ id = expected) /\ (checks_self_sig = true -> c_self_signed c = true).
 Proof.
   unfold handshake. destruct (a_proves_key a); cbn [negb]; [|discriminate].
   destruct (verify_peer expected (a_raw a)) as [k| |] eqn:Ev; cbn [obind]; try discriminate.
@@ -204,7 +211,7 @@ Proof.
   assert (Ep : parse_chain (a_raw a) = Some chain) by (apply parse_chain_some; exact Eraw).
   rewrite Ep. intros H. apply link_remote_is_chain_key in H as (k' & Hk' & ->).
   rewrite Hk in Hk'. inversion Hk'; subst k'.
-  apply chain_accept_iff in Hk as (c & e & -> & Hv & _ & Hf & He).
+  apply chain_accept_iff in Hk as (c & e & -> & Hv & _ & Hf & He & Hss).
   split; [reflexivity|]. exists c, e, k. cbn [map] in Eraw. repeat split; auto.
 Qed.
 
@@ -231,7 +238,7 @@ Definition not_holding (victim : nat) (VK : list Z) (a : attempt) : Prop :=
 Theorem impostor_never_named victim VK expected a id :
   not_holding victim VK a -> handshake expected a = Ok id -> id <> id_of victim.
 Proof.
-  intros [Hs Hp] H Eid. apply handshake_ok in H as (Hk & c & e & k & Er & -> & _ & Hf & He & _).
+  intros [Hs Hp] H Eid. apply handshake_ok in H as (Hk & c & e & k & Er & -> & _ & Hf & He & _ & _).
   apply id_of_inj in Eid. subst k.
   apply find_key_ext_some in Hf as (Hin & _).
   assert (Hc : In (RawCert c) (a_raw a)) by (rewrite Er; left; reflexivity).
@@ -270,6 +277,30 @@ Proof.
   { intros H. destruct (IH H) as (a' & c & e & k & Hin & R). exists a', c, e, k. split; [right; exact Hin|exact R]. }
   destruct (handshake expected a) as [id'| |] eqn:E; try exact Hrec.
   intros [<-|H]; [|exact (Hrec H)].
-  apply handshake_ok in E as (Hk & c & e & k & Er & Eid & _ & Hf & He & Hx).
+  apply handshake_ok in E as (Hk & c & e & k & Er & Eid & _ & Hf & He & Hx & _).
   exists a, c, e, k. repeat split; auto. left; reflexivity.
+Qed.
+
+(* ---- is the certificate's own signature checked? ---- *)
+Theorem accepted_is_self_signed_when_checked chain k :
+  checks_self_sig = true -> pubkey_from_chain chain = Ok k ->
+  exists c, chain = [c] /\ c_self_signed c = true.
+Proof.
+  intros Hc H. apply chain_accept_iff in H as (c & e & -> & _ & _ & _ & _ & Hss). eauto.
+Qed.
+
+(* x509 Verify with the certificate as its own root answers yes for a
+   certificate signed by another key (observed by the harness on real
+   certificates); without a separate signature check such a chain is accepted *)
+Definition resigned_cert : cert :=
+  mkCert true [mkExt tls_extension_oid false (SignedKey (PkOf 3) (SigBy 3 (binding_msg 1)))] false 1 true.
+
+Theorem non_self_signed_accepted_when_unchecked :
+  checks_self_sig = false ->
+  pubkey_from_chain [resigned_cert] = Ok 3%nat /\ c_self_signed resigned_cert = false.
+Proof.
+  intros Hc. split; [|reflexivity]. apply chain_accept_iff.
+  exists resigned_cert, (mkExt tls_extension_oid false (SignedKey (PkOf 3) (SigBy 3 (binding_msg 1)))).
+  split; [reflexivity|]. split; [reflexivity|]. split; [reflexivity|]. split; [reflexivity|].
+  split; [reflexivity|]. intros H. congruence.
 Qed.
